@@ -66,6 +66,8 @@ def rect_case(mon, rng, label, order, m):
         slack = 0
     elif sk == "scalar":
         slack = float(scale * 10 ** rng.uniform(-2, 0))
+        if rng.random() < 0.3:
+            slack = np.array(slack)  # a 0-d array is a scalar too
     else:
         slack = np.abs(rng.normal(size=m)) * scale * 10 ** rng.uniform(-2, 0)
     d = gen.interior_dir(W)
@@ -154,6 +156,8 @@ def ell_case(mon, rng, label, order, m):
         slack = 0
     elif sk == "scalar":
         slack = float(scale * 10 ** rng.uniform(-2, 0))
+        if rng.random() < 0.3:
+            slack = np.array(slack)  # a 0-d array is a scalar too
     else:
         slack = np.abs(rng.normal(size=K)) * scale * 10 ** rng.uniform(-2, 0)
     d = gen.interior_dir(W)
@@ -200,7 +204,7 @@ def shard(mon, tier, rng, shard_no, nshards):
             for _ in range(4):
                 lattice_case(mon, rng)
         else:
-            m = int(rng.choice([2, 2, 3]))
+            m = int(rng.choice([2, 2, 3, 4]))
             label, order = gen.random_order(rng, m)
             ell_case(mon, rng, label, order, m)
     mon.notes["solver_status_seen"] = dict(P.SOLVER_STATUS)
